@@ -16,7 +16,7 @@ from .core import Relation, err_kind
 
 PROP = "C01"
 CLAIMED = True
-COQ_MODULES = ["C01_Check", "C01_Proofs", "C01_Bsearch", "C01_Kernel"]
+COQ_MODULES = ["C01_Check", "C01_Proofs", "C01_Bsearch", "C01_Kernel", "C01_Mosaic", "C01_MosaicInst"]
 PROPERTY_MODULE = "C01_Property"
 ALLOWED_AXIOMS = []
 RULE = (
